@@ -206,6 +206,12 @@ def boundary_float_texts(seed, quick):
         "0x1e5", "0x1.8", "0x1.8p", "0x1.8p1", "0X1.8P1", "0x1.8P+1", "-0X1.8p-1", "0x1p1.0", "0x1p1p1", "0x1pp1", "0x1.8.p1", "0xgp1",
         "0x1gp1", "0b1", "0b1p1", "0o7", "0o7p1", "017", "08", "09.5", "00x1p1", "0x0x1p1", "1x", "x1", "1p1", "1.5p1", "0x1e+5", "0x1e+5p1",
         "0xep1", "0xe.ep-0", "0xABCDEFp0", "0xabcdef.ABCDEFp+00", "0xfffffffffffff8p0", "0xffffffffffffffffp0")
+    # the bytes next to the digits in ASCII ('/' = '0'-1, ':' = '9'+1) and other near-digits
+    add("1:", ":1", "1:1", ":", "12:", "0:", "9:", "1/", "/1", "1/2", "/", "1;", "1`", "1@", "1'", "1,5", "1,000", "1'000", "1~", "1!", "1d5", "1D5", "1f", "1F", "1L", "0x1p0f", "1e5f", "$1", "1%", "1x", "1ns")
+    # more than 800 integer digits (decimal.set's buffer): the value must still be the exact one
+    for k in (801, 802, 805, 850, 1000):
+        ds = "".join(rnd.choice("0123456789") for _ in range(k)).lstrip("0").rjust(k, "7")
+        add(ds + "e-%d" % (k - 1), ds + ".5e-%d" % (k - 300), ds[:k - 1] + "." + ds[k - 1:] + "e-%d" % (k - 10), ds + "e-%d" % (k + 200))
     # underscores
     add("1_000", "1_0.5", "1_0.0_1e1_0", "1__0", "_1", "1_", "1_.0", "1._0", "1e_1", "1_e1", "1e1_", "1e+_1", "1e-1_0", "+_1", "-_1", "+1_0",
         "0x_1p0", "0x1_0p0", "0x_1_0.8p-0_1", "0x1_p1", "0_x1p1", "0x__1p1", "0x1p_1", "0x1p1_", "0x1._8p1", "0x1_.8p1", "0xa_bp1", "0x_ap0",
@@ -294,6 +300,13 @@ def run(ctx):
     ctx.tlc("NumLit.tla", "NumLit_mc_%s.cfg" % tier, timeout=MC_TIMEOUT)
     for mx in (99, 999, 32767):
         ctx.tlc("NumLit.tla", "NumLit_fp_%d_%s.cfg" % (mx, tier), timeout=MC_TIMEOUT)
+    # decimal.set's digit buffer (capacity 3 in the model, 800 in the code): normative rule, and the
+    # as-built deviation LosesIntegerDigits as a negative control (TLC must show the counterexample)
+    ctx.tlc("NumLit.tla", "NumLit_mc_buf.cfg", timeout=600)
+    ab = ctx.tlc("NumLit.tla", "NumLit_asbuilt.cfg", workers=2, timeout=600, expect_ok=False, count=False, label="asbuilt")
+    if not (ab.error and "DenotAgree" in ab.error):
+        raise vlib.Infra("NumLit_asbuilt.cfg did not produce the DenotAgree counterexample: %s" % (ab.error,))
+    ctx.cov["asbuilt_counterexample"] = "LosesIntegerDigits=TRUE, BufCap=3 violates DenotAgree at a text with 4 integer digits"
 
     # (G) driver-built float boundary texts, classified by the spec
     texts = boundary_float_texts(ctx.seed, q)
